@@ -668,7 +668,7 @@ def _absval(absenv, n):
     v = absenv.get(n.uid)
     if v is None:
         import random
-        rnd = random.Random(n.uid * 7919 + 13)
+        rnd = random.Random(n.uid * 7919 + 13 + 104729 * absenv.get('__salt__', 0))
         v = Fraction(rnd.randint(3, 997), rnd.randint(2, 113))
         absenv[n.uid] = v
     return v
